@@ -41,6 +41,7 @@ import (
 	"github.com/tetratelabs/wazero/sys"
 	"github.com/tetratelabs/wazero/verifharness/c07"
 	"github.com/tetratelabs/wazero/verifharness/hx"
+	"github.com/tetratelabs/wazero/verifharness/wb"
 )
 
 var (
@@ -56,7 +57,9 @@ const (
 	modelDepth  = 5    // depth ceiling used for the model's exploration (real ceilings: 2000 frames / 512 MiB)
 )
 
-func features() api.CoreFeatures { return api.CoreFeaturesV2 | experimental.CoreFeaturesTailCall }
+func features() api.CoreFeatures {
+	return api.CoreFeaturesV2 | experimental.CoreFeaturesTailCall | experimental.CoreFeaturesThreads
+}
 
 func decode(bin []byte) (*wasm.Module, error) {
 	m, err := binary.DecodeModule(bin, features(), wasm.MemoryLimitPages, false, false, false)
@@ -321,6 +324,7 @@ type job struct {
 	// WithDeadlineCause) and the call is made on a context DERIVED from it: ctx.Err() is still Canceled /
 	// DeadlineExceeded, which is what the documented exit codes are defined by.
 	AppCause bool `json:"app_cause,omitempty"`
+	Blocked  bool `json:"blocked,omitempty"` // the guest blocks in memory.atomic.wait32 instead of cycling
 	Mods    []string `json:"mods,omitempty"`
 }
 
@@ -584,7 +588,10 @@ func judge(o outcome, p *c07.Prog, pred prediction, fixedTree bool) {
 		rep.Count("outcome:never-returns")
 		sig := fmt.Sprintf("C07:%s-never-returns-although-every-cycle-has-a-check", j.Engine)
 		what := "the call did not return %d ms after the cause fired although the model finds no check-free cycle"
-		if pred.asIsCycle && !pred.fixedCycle && !fixedTree && !entryCaught {
+		if j.Blocked {
+			sig = fmt.Sprintf("F49:%s-blocked-in-atomic-wait-never-stops", j.Engine)
+			what = "the call did not return %d ms after the cause fired: the guest is blocked in memory.atomic.wait32 (MemoryInstance.wait selects on the notify channel and the guest's own timeout only - not on the call's context nor on the module's close)"
+		} else if pred.asIsCycle && !pred.fixedCycle && !fixedTree && !entryCaught {
 			sig = fmt.Sprintf("F4:%s-tail-call-cycle-never-stops", j.Engine)
 			what = "the call did not return %d ms after the cause fired: the program's only check-free cycles go through return_call/return_call_indirect, where no exit-code check is emitted"
 		} else if len(j.Mods) > 0 && !modelCycle {
@@ -887,6 +894,25 @@ func main() {
 			}
 		}
 	}
+	// blocked, not looping: the guest sits in memory.atomic.wait32 on its own shared memory (nobody notifies).
+	// "Whatever the guest is doing" includes this: no cycle is involved, so no exit-code check is ever reached;
+	// only the wait itself could notice the cause.
+	for _, w := range []struct {
+		name    string
+		timeout int64
+	}{{"atomic-wait-forever", -1}, {"atomic-wait-5-minutes", 300e9}} {
+		bw := blockedWaitModule(w.timeout)
+		bp := &c07.Prog{Name: w.name, HostCB: []int{}, NonTerm: true, Text: fmt.Sprintf("(memory.atomic.wait32 (i32.const 0) (i32.const 0) (i64.const %d))", w.timeout)}
+		for _, eng := range []string{"interpreter", "compiler"} {
+			for _, cause := range causes {
+				j := job{Prog: bp.Name, Text: bp.Text, Wasm: hex.EncodeToString(bw), Entry: "f0", Arg: 1, HostCB: []int{}, Engine: eng, Cause: cause, Timing: "during", DelayUs: 3000, Code: 7, Blocked: true}
+				if !hx.Thorough() && cause != "deadline" && w.timeout >= 0 {
+					continue
+				}
+				plan = append(plan, planned{j, bp, prediction{raw: "blocked in memory.atomic.wait32 (no cycle: outside the cycle model)"}, false})
+			}
+		}
+	}
 	sort.SliceStable(plan, func(a, b int) bool { // start the slow (hanging) ones first
 		ha := plan[a].pred.asIsCycle
 		hb := plan[b].pred.asIsCycle
@@ -909,7 +935,7 @@ func main() {
 	for i := range plan {
 		o := results[i]
 		pl := plan[i]
-		unexpectedHang := o.hung && !(pl.pred.asIsCycle && !fixedTree)
+		unexpectedHang := o.hung && !(pl.pred.asIsCycle && !fixedTree) && !pl.j.Blocked
 		if unexpectedHang && retries < 4 {
 			// a second, isolated attempt before an unexpected hang counts (the first few: when many calls hang,
 			// load is not the explanation)
@@ -929,4 +955,17 @@ func main() {
 	}
 
 	rep.Write(orc)
+}
+
+// blockedWaitModule: (memory 1 1 shared) (func (export "f0") (param i32)
+//   (drop (memory.atomic.wait32 (i32.const 0) (i32.const 0) (i64.const timeout))))
+func blockedWaitModule(timeout int64) []byte {
+	m := wb.New()
+	one := uint32(1)
+	m.Memory(1, &one, true, "mem")
+	m.AddFunc(wb.Func{Params: []byte{wb.I32}, Export: "f0", Body: wb.Cat(
+		wb.I32Const(0), wb.I32Const(0), wb.I64Const(timeout),
+		[]byte{wasm.OpcodeAtomicPrefix, wasm.OpcodeAtomicMemoryWait32, 2, 0},
+		[]byte{wasm.OpcodeDrop})})
+	return m.Bytes()
 }
